@@ -1246,3 +1246,67 @@ Proof.
 Qed.
 
 End Proofs.
+
+(* ------------------------------------------------------------------ the d2ir instance *)
+
+Lemma keq_go_refl a : keq_go a a = true.
+Proof. apply str_eqb_refl. Qed.
+
+Lemma reserved_unm n : go_reserved n = true -> unm mt_go n.
+Proof.
+  intros Hr p Hp. unfold mt_go, match_pattern.
+  destruct (never_reserved go_lower go_reserved n p Hp Hr) as (_ & E & _).
+  unfold match_pattern_pinned. rewrite E. reflexivity.
+Qed.
+
+Lemma nonemptyb_ne {A} (l : list A) : nonemptyb l = true -> l <> [].
+Proof. destruct l; [discriminate | discriminate]. Qed.
+
+Lemma find_glob_none g : forall gs k, existsb (fun g' => glob_eqb g' g) gs = false -> find_glob gs g k = None.
+Proof.
+  induction gs as [|g' gs IH]; intros k H; simpl in *; [reflexivity|].
+  apply orb_false_iff in H as [H1 H2]. rewrite H1. apply IH. assumption.
+Qed.
+
+Lemma wf_fromb_sound : forall p gs, wf_fromb gs p = true -> wf_from mt_go gs p.
+Proof.
+  induction p as [|x p IH]; intros gs H; [exact I|]. destruct x as [q w|g]; simpl in *.
+  - apply andb_prop in H as [H1 H2]. split; [apply nonemptyb_ne; assumption | apply IH; assumption].
+  - apply andb_prop in H as [H H3]. apply andb_prop in H as [H1 H2]. unfold glob_okb in H1.
+    apply andb_prop in H1 as [H1 Hr]. apply andb_prop in H1 as [H1 Hs]. apply andb_prop in H1 as [H1 Hp].
+    apply andb_prop in H1 as [Hpre Hpn].
+    split; [|split; [apply nonemptyb_ne; assumption | split; [|apply IH; assumption]]].
+    + split; [|apply nonemptyb_ne; assumption]. constructor.
+      * destruct (g_pre g); [reflexivity | discriminate].
+      * apply Forall_forall. intros x Hx. rewrite forallb_forall in Hp. apply nonemptyb_ne, Hp, Hx.
+      * apply Forall_forall. intros x Hx. rewrite forallb_forall in Hr. apply reserved_unm, Hr, Hx.
+    + apply find_glob_none. apply negb_true_iff. assumption.
+Qed.
+
+Theorem glob_equiv_expansion_go p : wf_progb p = true ->
+  run keq_go mt_go p = Some (run_plain keq_go (expand keq_go mt_go p)).
+Proof. intro H. apply glob_equiv_expansion; [exact keq_go_refl | apply wf_fromb_sound; exact H]. Qed.
+
+(* the mechanism never runs out of fuel and never matches a reserved keyword field *)
+Theorem glob_targets_never_reserved g st t : g_pre g = [] -> g_pats g <> [] -> Forall (fun p => p <> []) (g_pats g) ->
+  In t (targets keq_go mt_go g st) -> forall n, In n t -> go_reserved n = false.
+Proof.
+  intros Hpre Hne Hp Ht n Hn. apply (targets_spec keq_go mt_go g st t Hpre) in Ht as [_ F].
+  destruct (go_reserved n) eqn:R; [|reflexivity]. exfalso.
+  remember (g_pats g) as pats eqn:Ep. clear Ep Hne.
+  induction F as [|m p ms ps Hm F IH]; [destruct Hn|].
+  inversion Hp as [|? ? Hp1 Hp2]; subst. destruct Hn as [E|Hn].
+  - subst m. rewrite (reserved_unm n R p Hp1) in Hm. discriminate.
+  - apply IH; assumption.
+Qed.
+
+(* the same glob key written twice: the second declaration is ignored (ensureGlobContext reuses the context of
+   the first, whose applied set already holds every target): `*.style.fill: r; a; *.style.fill: bl; *.style.fill: r`
+   leaves a.style.fill = bl, the reference expansion gives r *)
+Definition dup_witness : program :=
+  let sf := [[115;116;121;108;101];[102;105;108;108]] in
+  [SGlob (G [] [[[42]]] sf [114]); SKey [[97]] None; SGlob (G [] [[[42]]] sf [98;108]); SGlob (G [] [[[42]]] sf [114])].
+
+Lemma glob_duplicate_refuted :
+  run keq_go mt_go dup_witness <> Some (run_plain keq_go (expand keq_go mt_go dup_witness)).
+Proof. vm_compute. discriminate. Qed.
